@@ -1,18 +1,51 @@
-(* C10 - Clean rewrites preserve content; sorting is an idempotent permutation (first slice). *)
-From Coq Require Import List NArith Bool Lia.
+(* C10 - Clean rewrites preserve content; sorting is an idempotent permutation. *)
+From Coq Require Import String.
+From Coq Require Import List NArith Bool Lia Permutation.
+Local Open Scope string_scope.
 Import ListNotations.
 From Snaps Require Import Base.Bytes Base.Assoc.
 From Snaps Require Import Model.Frame Model.PathModel Model.Mode Model.Api Model.Natural Model.Clean.
-From Snaps Require Import Proofs.CleanP.
+From Snaps Require Import Proofs.FrameP Proofs.CleanP Proofs.CleanEntriesP.
+
+(* whenever Clean rewrites a file (pruning and/or sorting) the new content is the rendering of a
+   PERMUTATION of the staying entries: every surviving entry is written exactly once with exactly the
+   body it held; nothing is dropped, duplicated or invented *)
+Theorem C10_rewrite_preserves_content : forall reg skp update sort es nf,
+  Forall centry_ok es -> NoDup (map fst es) ->
+  snd (examine_file reg skp update sort (render (map to_entry es))) = Some nf ->
+  exists out, nf = render (map to_entry out) /\ Permutation out (stay reg skp update es).
+Proof. exact rewrite_content. Qed.
+Print Assumptions C10_rewrite_preserves_content.
+
+(* pruning without sorting keeps the survivors byte-identical and in place *)
+Theorem C10_prune_in_place : forall reg skp es,
+  Forall centry_ok es -> NoDup (map fst es) ->
+  filter (fun e => negb (kept reg skp e)) es <> [] ->
+  examine_file reg skp true false (render (map to_entry es)) =
+  (map fst (filter (fun e => negb (kept reg skp e)) es),
+   Some (render (map to_entry (filter (kept reg skp) es)))).
+Proof. exact examine_file_prune. Qed.
+Print Assumptions C10_prune_in_place.
+
+(* the emission order under sorting is a permutation of the ids (insertion by the natural comparator) *)
+Theorem C10_sort_is_permutation : forall l, Permutation (sort_nat l) l.
+Proof. exact sort_nat_perm. Qed.
+Print Assumptions C10_sort_is_permutation.
 
 (* files needing neither pruning nor sorting are not written *)
 Theorem C10_noop_not_written : forall registered skipped f,
   snd (examine_file registered skipped false false f) = None.
 Proof. exact examine_file_noop. Qed.
-Print Assumptions C10_noop_not_written.
-
 Theorem C10_rewrite_only_if : forall registered skipped update sort f o nf,
   examine_file registered skipped update sort f = (o, Some nf) ->
   (update = true /\ o <> []) \/ sort = true.
 Proof. exact examine_file_rewrite_iff. Qed.
+Print Assumptions C10_noop_not_written.
 Print Assumptions C10_rewrite_only_if.
+
+(* pruning is idempotent: after a clean-mode rewrite nothing is stale any more, so a second Clean
+   does not rewrite for pruning *)
+Theorem C10_prune_idempotent : forall reg skp es,
+  filter (fun e => negb (kept reg skp e)) (filter (kept reg skp) es) = [].
+Proof. exact prune_idempotent. Qed.
+Print Assumptions C10_prune_idempotent.
